@@ -116,6 +116,57 @@ def instrument(path: Path):
     path.write_text(ast.unparse(ast.fix_missing_locations(tree)) + "\n")
 
 
+class _Mirror(ast.NodeTransformer):
+    """a < b  ->  b > a   (single comparison of side-effect-free operands)"""
+
+    SWAP = {ast.Lt: ast.Gt, ast.Gt: ast.Lt, ast.LtE: ast.GtE, ast.GtE: ast.LtE, ast.Eq: ast.Eq, ast.NotEq: ast.NotEq}
+
+    @staticmethod
+    def _pure(e):
+        return all(isinstance(n, ast.Name | ast.Attribute | ast.Constant | ast.Load | ast.BinOp | ast.Add | ast.Sub | ast.UnaryOp | ast.USub | ast.Subscript) for n in ast.walk(e))
+
+    def visit_Compare(self, n):
+        self.generic_visit(n)
+        if len(n.ops) == 1 and type(n.ops[0]) in self.SWAP and self._pure(n.left) and self._pure(n.comparators[0]):
+            return ast.Compare(left=n.comparators[0], ops=[self.SWAP[type(n.ops[0])]()], comparators=[n.left])
+        return n
+
+
+class _AugExpand(ast.NodeTransformer):
+    """x += y -> x = x + y for plain names and self.attr targets (ints/strings only in this code base)."""
+
+    def visit_AugAssign(self, n):
+        self.generic_visit(n)
+        if isinstance(n.op, ast.Add | ast.Sub) and isinstance(n.target, ast.Name | ast.Attribute):
+            import copy
+
+            load = copy.deepcopy(n.target)
+            for x in ast.walk(load):
+                if hasattr(x, "ctx"):
+                    x.ctx = ast.Load()
+            return ast.Assign(targets=[n.target], value=ast.BinOp(left=load, op=n.op, right=n.value), lineno=n.lineno)
+        return n
+
+
+class _NegateIf(ast.NodeTransformer):
+    """if c: A else: B  ->  if not c: B else: A   (plain if/else, no elif chain, no walrus in the test)"""
+
+    def visit_If(self, n):
+        self.generic_visit(n)
+        if n.orelse and not (len(n.orelse) == 1 and isinstance(n.orelse[0], ast.If)) and not any(isinstance(x, ast.NamedExpr) for x in ast.walk(n.test)):
+            return ast.If(test=ast.UnaryOp(op=ast.Not(), operand=n.test), body=n.orelse, orelse=n.body)
+        return n
+
+
+def transform(path: Path, cls):
+    src = path.read_text()
+    if not src.strip():
+        return
+    tree = ast.parse(src)
+    tree = cls().visit(tree)
+    path.write_text(ast.unparse(ast.fix_missing_locations(tree)) + "\n")
+
+
 if __name__ == "__main__":
     root = Path(sys.argv[1])
     mode = sys.argv[2] if len(sys.argv) > 2 else "rename"
@@ -127,4 +178,10 @@ if __name__ == "__main__":
             unparse_only(f)
         elif mode == "instrument":
             instrument(f)
+        elif mode == "mirror":
+            transform(f, _Mirror)
+        elif mode == "augexpand":
+            transform(f, _AugExpand)
+        elif mode == "negateif":
+            transform(f, _NegateIf)
     print(f"{mode}: done ({total} locals renamed)" if mode == "rename" else f"{mode}: done")
